@@ -22,11 +22,25 @@ def run_case(case: dict) -> dict:
     from harness.drv_pdobits import build
     t = case["t"]
     fn, fd = case["fn"], case["fd"]
+    arr_member = False
     if case["kind"] == "sdo":
         od = canopen.ObjectDictionary()
         v = ODVariable("X", 0x2000, 0)
         v.data_type = t
         od.add_object(v)
+        arr_member = bool(case.get("arr_member"))
+        if arr_member:
+            # the variable is a member of an array that the dictionary serves on demand (only member 1
+            # is described; members 2.. take everything from it)
+            from canopen.objectdictionary import ODArray
+            arr = ODArray("Arr", 0x2100)
+            n0 = ODVariable("n", 0x2100, 0)
+            n0.data_type = 0x5
+            arr.add_member(n0)
+            v = ODVariable("Member", 0x2100, 1)
+            v.data_type = t
+            arr.add_member(v)
+            od.add_object(arr)
         node = canopen.LocalNode(3, od)
         var = node.sdo[0x2000]
         odv = v
@@ -42,6 +56,15 @@ def run_case(case: dict) -> dict:
     for k, (name, bits) in enumerate(case["bitdefs"]):
         # every other named field is defined most significant bit first
         odv.add_bit_definition(name, list(bits)[::-1] if case.get("desc_defs") and k % 2 else list(bits))
+    if case["kind"] == "sdo" and arr_member:
+        var = node.sdo[0x2100][3]       # created now, from the fully described member 1
+    # a sibling entry that defines the same field names on other bits, and is polled by name as well
+    from canopen.objectdictionary import ODVariable as _ODV
+    sib = _ODV("sibling", 0x2FFF, 0)
+    sib.data_type = t
+    _width = 8 * enc.NUM_SIZE[t]
+    for name, bits in case["bitdefs"]:
+        sib.add_bit_definition(name, sorted({(b + 1) % _width for b in bits}))
     ev = []
     var.raw = 0
     lb = limb
@@ -76,7 +99,7 @@ def run_case(case: dict) -> dict:
                 b = int(op["v"]).to_bytes(size, "little", signed=enc.INT[t][1])
                 if case["kind"] == "sdo":
                     if op.get("how") == "other":
-                        node.sdo[0x2000].data = b
+                        (node.sdo[0x2100][3] if arr_member else node.sdo[0x2000]).data = b
                     else:
                         var.data = b
                 else:
@@ -121,6 +144,8 @@ def run_case(case: dict) -> dict:
                     key = slice(bits[-1], bits[0] - 1, -1) if bits[0] > 0 else bits[::-1]
                 else:
                     key = op["name"]
+                    sib.decode_bits(0, key)
+                    sib.encode_bits(0, key, 0)
                 if o == "bits_set":
                     e["val"] = lb(op["val"])
                     var.bits[key] = op["val"]
